@@ -4,6 +4,7 @@ import (
 	"encoding/json"
 	"os"
 	"path/filepath"
+	"strconv"
 	"strings"
 	"testing"
 
@@ -55,6 +56,9 @@ func TestWitness(t *testing.T) {
 		}
 	}
 	n := 400000
+	if v := os.Getenv("C07L_WITNESS_N"); v != "" {
+		n, _ = strconv.Atoi(v)
+	}
 	gf := rapid.Custom(drawFault)
 	gv := rapid.Custom(drawValid)
 	for i := 0; i < n; i++ {
@@ -62,6 +66,17 @@ func TestWitness(t *testing.T) {
 		try("lapack-valid-edge", gv.Example(i), checkValid)
 	}
 	_ = os.MkdirAll(dir, 0o755)
+	for _, c := range l64Cases() {
+		if f := checkL64(c); f != nil {
+			key := "lapack64-empty/" + f.Key
+			f.Key = key
+			raw, _ := json.Marshal(c)
+			out := map[string]any{"property": "C07", "sub": "lapack64-empty", "failure": f, "case": json.RawMessage(raw)}
+			b, _ := json.MarshalIndent(out, "", " ")
+			_ = os.WriteFile(filepath.Join(dir, "lapack64-empty_"+c.W+".json"), b, 0o644)
+			t.Logf("%s: %s", key, f.Msg)
+		}
+	}
 	for key, h := range best {
 		raw, _ := json.Marshal(h.c)
 		h.f.Key = key
